@@ -307,7 +307,7 @@ func contains(s []string, x string) bool {
 }
 
 // ExtraArchs lists, per property, build configurations analysed in addition to the host one already in the quick tier.
-var ExtraArchs = map[string][]string{"C14": {"386"}, "C11": {"386"}, "C12": {"386"}, "C03": {"386"}, "C16": {"386"}, "C01": {"386"}}
+var ExtraArchs = map[string][]string{"C14": {"386"}, "C11": {"386"}, "C12": {"386"}, "C03": {"386"}, "C16": {"386"}, "C01": {"386"}, "C09": {"386"}}
 
 // borrow copies the non-trivial obligations of another property's rule families into rep under a new
 // rule name: a property whose statement rests on premises decided elsewhere restates them, so that its own
